@@ -285,7 +285,8 @@ def _worker(world, prop, seed, tier, w, W, nruns, deadline, wfd, max_fail):
         rng = random.Random(run_seed(prop, seed, k))
         base = world.gen(rng, tier)
         programs = [base]
-        if tier == "thorough" and hasattr(world, "fault_variants"):
+        if hasattr(world, "fault_variants") and (tier == "thorough" or k < getattr(world, "quick_enum_bases", 0)):
+            # single-fault enumeration: the same program with one fault placed at every position
             programs = programs + list(world.fault_variants(base, rng))
         for vi, program in enumerate(programs):
             res = run_forked(world, program)
